@@ -23,7 +23,7 @@ func init() { register(&Engine{Name: "C11", Run: runC11}) }
 
 func c11Domain() Domain {
 	return Domain{EmptyStringElems: true, NilPtrElems: true, ZeroTimeElems: true, BigStrings: true, BigBinaries: true,
-		FarDates: true, AllDoubles: true, MaxListLen: 8, MaxMapLen: 4}
+		FarDates: true, AllDoubles: true, OddMaps: true, MaxListLen: 8, MaxMapLen: 4}
 }
 
 const (
